@@ -37,8 +37,9 @@ Proof.
   - reflexivity.
 Qed.
 
-Lemma superblock_v0_roundtrip x : wf_superblock x = true -> sp_version x = 0 ->
-  dec_superblock (enc_superblock x) = Ok (proj_superblock x).
+(* the round trips hold for both variants of the superblock sizes switch: the writer emits 8-byte sizes, on which they agree *)
+Lemma superblock_v0_roundtrip_gen rep x : wf_superblock x = true -> sp_version x = 0 ->
+  dec_superblock_gen rep (enc_superblock x) = Ok (proj_superblock x).
 Proof.
   unfold wf_superblock. intros H Hv.
   apply andb_true_iff in H as [H Heof]. apply andb_true_iff in H as [H Hhp].
@@ -56,7 +57,7 @@ Proof.
     by (subst E; unfold v0_head; rewrite <- !app_assoc; reflexivity).
   assert (LE96 : blen E = 96)
     by (rewrite EE, !blen_app, blen_v0_head, !blen_le; reflexivity).
-  unfold dec_superblock. rewrite LE96. change (N.min 96 128) with 96. change (96 <? 48) with false. cbv iota.
+  unfold dec_superblock_gen. rewrite LE96. change (N.min 96 128) with 96. change (96 <? 48) with false. cbv iota.
   rewrite firstn_short by (unfold blen in LE96; blia).
   change (N.to_nat (128 - 96)) with 32%nat.
   set (Z := zeros 32).
@@ -68,6 +69,9 @@ Proof.
   rewrite EB in *. rewrite R0. cbn [obind]. change (bytes_eqb signature signature) with true. cbn [negb].
   rewrite R8. cbn [obind]. change (0 =? 0) with true. cbn [orb negb]. rewrite R13, R14. cbn [obind].
   change (8 =? 0) with false. cbv iota. change (valid_size 8) with true. cbn [andb negb].
+  replace (if rep then 24 + 4 * 8 + 8 else 64) with 64 by (destruct rep; reflexivity).
+  replace (if rep then 24 + 4 * 8 + 2 * 8 + 8 else 80) with 80 by (destruct rep; reflexivity).
+  replace (if rep then 24 + 4 * 8 + 2 * 8 + 8 + 8 else 88) with 88 by (destruct rep; reflexivity).
   (* root at 64 *)
   rewrite (read_value_le (v0_head base eof) root) by (auto; rewrite ?blen_v0_head, ?LB; auto; blia).
   cbn [obind].
@@ -102,8 +106,8 @@ Proof.
   - reflexivity.
 Qed.
 
-Lemma superblock_v2_roundtrip x : wf_superblock x = true -> sp_version x <> 0 ->
-  dec_superblock (enc_superblock x) = Ok (proj_superblock x).
+Lemma superblock_v2_roundtrip_gen rep x : wf_superblock x = true -> sp_version x <> 0 ->
+  dec_superblock_gen rep (enc_superblock x) = Ok (proj_superblock x).
 Proof.
   unfold wf_superblock. intros H Hv.
   apply andb_true_iff in H as [H Heof]. apply andb_true_iff in H as [H Hhp].
@@ -122,7 +126,7 @@ Proof.
   set (crc := le 4 (crc32_ieee body)).
   assert (LBody : blen body = 44) by (subst body; unfold signature; rewrite !blen_app, !blen_le; reflexivity).
   assert (LE48 : blen (body ++ crc) = 48) by (subst crc; rewrite blen_app, LBody, blen_le; reflexivity).
-  unfold dec_superblock. rewrite LE48. change (N.min 48 128) with 48. change (48 <? 48) with false. cbv iota.
+  unfold dec_superblock_gen. rewrite LE48. change (N.min 48 128) with 48. change (48 <? 48) with false. cbv iota.
   rewrite firstn_short by (unfold blen in LE48; blia).
   change (N.to_nat (128 - 48)) with 80%nat.
   set (Z := zeros 80).
@@ -137,7 +141,9 @@ Proof.
   assert (Hv0 : (ver =? 0) = false) by (apply N.eqb_neq; exact Hv).
   rewrite Hv0 in Hver |- *.
   cbn [orb] in Hver |- *. rewrite Hver. cbn [negb]. rewrite R9, R10. cbn [obind].
-  change (N.testbit 8 0) with false. change (valid_size 8) with true. cbv iota.
+  change (N.testbit 8 0) with false. change (valid_size 8) with true. change (spec_size 8) with true. cbv iota.
+  match goal with |- context [if ?c then ?a else ?b] =>
+    match c with context [rep] => replace (if c then a else b) with b by (destruct rep; reflexivity) end end.
   cbn [obind]. cbv beta iota.
   change (8 =? 0) with false. cbv iota. change (valid_size 8) with true. cbn [andb negb].
   change (12 + 8) with 20. change (12 + 3 * 8) with 36.
@@ -163,13 +169,17 @@ Proof.
   reflexivity.
 Qed.
 
-Lemma superblock_roundtrip x : wf_superblock x = true ->
-  dec_superblock (enc_superblock x) = Ok (proj_superblock x).
+Lemma superblock_roundtrip_gen rep x : wf_superblock x = true ->
+  dec_superblock_gen rep (enc_superblock x) = Ok (proj_superblock x).
 Proof.
   intros H. destruct (N.eq_dec (sp_version x) 0).
-  - now apply superblock_v0_roundtrip.
-  - now apply superblock_v2_roundtrip.
+  - now apply superblock_v0_roundtrip_gen.
+  - now apply superblock_v2_roundtrip_gen.
 Qed.
+
+Lemma superblock_roundtrip x : wf_superblock x = true ->
+  dec_superblock (enc_superblock x) = Ok (proj_superblock x).
+Proof. apply superblock_roundtrip_gen. Qed.
 
 Lemma superblock_blen x : blen (enc_superblock x) = size_superblock x.
 Proof.
